@@ -144,3 +144,17 @@ void __cxa_guard_abort(uint8_t* g) { }
 #ifdef __CPROVER__
 uint32_t __cxa_atexit(uint8_t* f, uint8_t* p, uint8_t* d) { return 0; }
 #endif
+#ifndef LL_NO_STRTO
+int64_t ll_strtol(uint8_t* nptr, uint8_t* endptr, uint32_t base) {
+  uint8_t* s = nptr; int neg = 0; uint64_t acc = 0; int any = 0, ovf = 0;
+  while (*s == ' ' || (*s >= 9 && *s <= 13)) s++;
+  if (*s == '-') { neg = 1; s++; } else if (*s == '+') s++;
+  if ((base == 0 || base == 16) && s[0] == '0' && (s[1] == 'x' || s[1] == 'X') && ll_digitval(s[2]) < 16) { s += 2; base = 16; }
+  if (base == 0) base = (s[0] == '0') ? 8 : 10;
+  for (;; s++) { int d = ll_digitval(*s); if (d >= (int)base) break; any = 1;
+    if (acc > ((uint64_t)INT64_MAX + (uint64_t)neg - (uint64_t)d) / base) ovf = 1; else acc = acc * base + (uint64_t)d; }
+  if (endptr) *(uint8_t**)endptr = any ? s : nptr;
+  if (ovf) { ll_errno_cell = 34; return neg ? INT64_MIN : INT64_MAX; }
+  return neg ? (int64_t)((uint64_t)0 - acc) : (int64_t)acc;
+}
+#endif
